@@ -369,20 +369,29 @@ class Program:
                 if isinstance(arg, dict):
                     arg = list(arg.keys())
                 return {"list": list, "tuple": tuple, "set": set, "frozenset": frozenset, "sorted": sorted}[cname](arg)
-            # a module-level pure helper: `def h(a, b): [docstring]; [x = <expr>]*; return <expr>`
+            # a module-level table builder: straight-line constant propagation through
+            #   `def h(a, b): [docstring]; (x = <expr> | x[k] = <expr> | x += <expr> | x.update/append/extend(<expr>)
+            #                               | for t in <expr>: ... | if <expr>: ...)*; return <expr>`
             if isinstance(fn, ast.Name) and fn.id in mod.functions and not node.keywords:
                 h = mod.functions[fn.id]
                 body = [st for st in h.node.body if not (isinstance(st, ast.Expr) and isinstance(st.value, ast.Constant))]
-                if body and isinstance(body[-1], ast.Return) and body[-1].value is not None and len(node.args) == len(h.params) \
-                        and all(isinstance(st, (ast.Assign, ast.AnnAssign)) for st in body[:-1]):
+                if body and isinstance(body[-1], ast.Return) and body[-1].value is not None and len(node.args) == len(h.params):
                     env2 = dict(zip(h.params, [f(a) for a in node.args]))
-                    for st in body[:-1]:
-                        tgt = st.targets[0] if isinstance(st, ast.Assign) else st.target
-                        if not isinstance(tgt, ast.Name) or st.value is None:
-                            raise CannotFold(f"helper not foldable: {fn.id}")
-                        env2[tgt.id] = self.fold(mod, st.value, env2)
+                    self._propagate(mod, body[:-1], env2, fn.id)
                     return self.fold(mod, body[-1].value, env2)
             raise CannotFold(f"call not foldable: {unparse(node)}")
+        if isinstance(node, ast.DictComp) and len(node.generators) == 1:
+            gen = node.generators[0]
+            it = f(gen.iter)
+            if isinstance(it, dict):
+                it = list(it.keys())
+            outd = {}
+            for item in it:
+                e2 = dict(env or {})
+                _bind(gen.target, item, e2)
+                if all(self.fold(mod, c, e2) for c in gen.ifs):
+                    outd[self.fold(mod, node.key, e2)] = self.fold(mod, node.value, e2)
+            return outd
         if isinstance(node, (ast.ListComp, ast.SetComp, ast.GeneratorExp)) and len(node.generators) == 1:
             gen = node.generators[0]
             it = f(gen.iter)
@@ -411,6 +420,47 @@ class Program:
             if isinstance(op, ast.NotEq):
                 return l != r
         raise CannotFold(f"expression not foldable: {unparse(node)[:80]}")
+
+    def _propagate(self, mod: Module, stmts: T.List[ast.stmt], env: T.Dict[str, T.Any], who: str, depth: int = 0) -> None:
+        """Constant propagation through the statements of a table-building helper (see fold)."""
+        import copy as _copy
+        if depth > 3:
+            raise CannotFold(f"helper not foldable: {who}")
+        for st in stmts:
+            if isinstance(st, ast.AnnAssign) and st.value is None:
+                continue
+            if isinstance(st, (ast.Assign, ast.AnnAssign)):
+                tgt = st.targets[0] if isinstance(st, ast.Assign) and len(st.targets) == 1 else (st.target if isinstance(st, ast.AnnAssign) else None)
+                val = _copy.deepcopy(self.fold(mod, st.value, env))
+                if isinstance(tgt, ast.Name):
+                    env[tgt.id] = val
+                elif isinstance(tgt, ast.Subscript) and isinstance(tgt.value, ast.Name) and tgt.value.id in env and isinstance(env[tgt.value.id], (dict, list)):
+                    env[tgt.value.id][self.fold(mod, tgt.slice, env)] = val
+                else:
+                    raise CannotFold(f"helper not foldable: {who}")
+            elif isinstance(st, ast.AugAssign) and isinstance(st.op, ast.Add) and isinstance(st.target, ast.Name) and st.target.id in env:
+                env[st.target.id] = env[st.target.id] + self.fold(mod, st.value, env)
+            elif isinstance(st, ast.Expr) and isinstance(st.value, ast.Call) and isinstance(st.value.func, ast.Attribute) \
+                    and isinstance(st.value.func.value, ast.Name) and st.value.func.value.id in env \
+                    and st.value.func.attr in ("update", "append", "extend", "add", "setdefault") and not st.value.keywords:
+                recv = env[st.value.func.value.id]
+                args = [self.fold(mod, a, env) for a in st.value.args]
+                if not isinstance(recv, (dict, list, set)) or not hasattr(recv, st.value.func.attr):
+                    raise CannotFold(f"helper not foldable: {who}")
+                getattr(recv, st.value.func.attr)(*args)
+            elif isinstance(st, ast.For) and not st.orelse:
+                it = self.fold(mod, st.iter, env)
+                if isinstance(it, dict):
+                    it = list(it.keys())
+                for item in list(it):
+                    _bind(st.target, item, env)
+                    self._propagate(mod, st.body, env, who, depth + 1)
+            elif isinstance(st, ast.If):
+                self._propagate(mod, st.body if self.fold(mod, st.test, env) else st.orelse, env, who, depth + 1)
+            elif isinstance(st, ast.Pass):
+                continue
+            else:
+                raise CannotFold(f"helper not foldable: {who} (statement `{unparse(st)[:50]}`)")
 
     # ------------------------------------------------------------ type resolution
     def annotation_class(self, mod: Module, ann: T.Optional[ast.AST]) -> T.Optional[ClassInfo]:
